@@ -119,6 +119,14 @@ def sock_havoc(sock):
 
 def build(E, tier):
     E.global_overrides[(B, "RECV_SIZE")] = IntV(z3.Int("RECV_SIZE"))
+    # the readers are proved for an arbitrary receive size; the ghost recv contract needs a positive one (recv(0) returns b"",
+    # which the readers take for a closed connection)
+    try:
+        rs = extract.literal_constant(B, "RECV_SIZE")
+    except Exception:
+        rs = None
+    E.oblige("C03/base.RECV_SIZE/is-a-positive-integer", State(), z3.BoolVal(isinstance(rs, int) and not isinstance(rs, bool) and rs >= 1),
+             func=B + ":_recv", meta={"RECV_SIZE": repr(rs)})
     recv_fn(E)
     E.contracts[B + ":_recv"] = recv_contract
     readline(E)
